@@ -395,7 +395,8 @@ class FnTr:
             self.info.ext_used.append(key)
 
     def later_nodes(self) -> list:
-        return [n for frame in self.after_stack for n in frame]
+        """statements that may still run after the current one, in temporal order (innermost block first)"""
+        return [n for frame in reversed(self.after_stack) for n in frame]
 
     def holders(self, env: dict, region) -> int:
         return sum(1 for v in env.values() if v.region == region)
@@ -737,6 +738,8 @@ class FnTr:
         for name in list(env):
             if name in skip:
                 continue
+            if env[name].ty == NONE:
+                continue
             for b in branches:
                 if name not in b:
                     del env[name]; break
@@ -895,9 +898,31 @@ class FnTr:
         return "\n".join(lines)
 
     @staticmethod
-    def loads(name: str, nodes) -> bool:
-        return any(isinstance(sub, ast.Name) and sub.id == name and isinstance(sub.ctx, ast.Load)
-                   for n in nodes for sub in ast.walk(n))
+    def loads(name: str, stmts) -> bool:
+        """may `name` be read by the statements before they (re)bind it?  (conservative, in execution order)"""
+        def reads(node) -> bool:
+            return any(isinstance(sub, ast.Name) and sub.id == name and isinstance(sub.ctx, ast.Load) for sub in ast.walk(node))
+        def binds(t) -> bool:
+            return (isinstance(t, ast.Name) and t.id == name) or (isinstance(t, (ast.Tuple, ast.List)) and any(binds(e) for e in t.elts))
+        def go(ss):
+            """True: read first; False: bound first; None: neither"""
+            for st in ss:
+                if isinstance(st, ast.Assign):
+                    if reads(st.value) or any(reads(t) for t in st.targets if not binds(t)):
+                        return True
+                    if any(binds(t) for t in st.targets):
+                        return False
+                elif isinstance(st, ast.For):
+                    if reads(st.iter):
+                        return True
+                    if binds(st.target):
+                        return False
+                    if reads(st):
+                        return True      # the body may not run at all, so a binding inside it does not count
+                elif reads(st):
+                    return True
+            return None
+        return go(list(stmts)) is True
 
     # -- closures ------------------------------------------------------------------------------------------------
     def define_closure(self, node: ast.FunctionDef, env: dict):
@@ -1012,6 +1037,15 @@ class FnTr:
                 ok = all(r not in (None, EXT) and not (isinstance(r, tuple) and r[0] in ("param", "elem")) for r in regs) and len(set(regs)) == len(regs)
                 out.region = self.fresh_region() if ok else EXT
             return out
+        if isinstance(node, ast.List):
+            if not node.elts:
+                # an empty list literal is a list of arrays (anything else appended to it is rejected)
+                return Val("([] : List QMat)", TList(MAT), self.fresh_region(), True, True)
+            vs = [self.expr(e, env) for e in node.elts]
+            if len({v.ty for v in vs}) != 1:
+                self.bad("list literal with elements of different types", node)
+            owned = all(v.ty.kind not in MUTABLE or (v.temp and v.region not in (None, EXT)) for v in vs)
+            return Val("[" + ", ".join(v.text for v in vs) + "]", TList(vs[0].ty), self.fresh_region(), True, owned)
         if isinstance(node, (ast.ListComp, ast.GeneratorExp)):
             return self.comprehension(node, env)
         if isinstance(node, ast.Call):
